@@ -1138,14 +1138,14 @@ Proof.
   - cbn [enum_ok]. rewrite Hv. reflexivity.
 Qed.
 
-Theorem enumerateTables_is_translation : forall (m : mem) (fail : N -> bool) (rsdt : N) (useXSDT : bool) (fuel : nat),
-  bytes_ok m -> rsdt < two64 -> (N.to_nat two32 <= fuel)%nat ->
-  enum_ok (go_acpi_acpiDriver_enumerateTables fuel (W []) rsdt useXSDT (ld_of m) (o_idmap fail))
+(** from any trace that stands for the initial state (e.g. one holding only the probe's mapFn / unmapFn calls) *)
+Theorem enumerateTables_is_translation_from : forall (m : mem) (fail : N -> bool) (rsdt : N) (useXSDT : bool) (fuel : nat) (tr0 : list gcall),
+  bytes_ok m -> rsdt < two64 -> (N.to_nat two32 <= fuel)%nat -> Inv tr0 state0 ->
+  enum_ok (go_acpi_acpiDriver_enumerateTables fuel (W tr0) rsdt useXSDT (ld_of m) (o_idmap fail))
           (enumerateTables m fail rsdt useXSDT).
 Proof.
-  intros m fail rsdt useXSDT fuel Hok Hr Hf. rewrite enum_unfold. unfold enum_form, enumerateTables.
-  assert (HI0 : Inv [] state0) by (split; reflexivity).
-  pose proof (map_step m fail fuel [] state0 rsdt Hok Hr Hf HI0) as Hm. unfold gmap in Hm.
+  intros m fail rsdt useXSDT fuel tr0 Hok Hr Hf HI0. rewrite enum_unfold. unfold enum_form, enumerateTables.
+  pose proof (map_step m fail fuel tr0 state0 rsdt Hok Hr Hf HI0) as Hm. unfold gmap in Hm.
   destruct (mapACPITable m fail (st_seam state0) rsdt) as [sm [hdr len|hdr len| |a]].
   - destruct Hm as (tr' & -> & HI' & Hh & Hlen). cbn [negb gerr_eqb].
     assert (HI1 : Inv (GCall "tableMap.make" [] :: tr') (with_seam state0 sm)) by (apply Inv_make; [exact HI'|reflexivity]).
@@ -1177,4 +1177,186 @@ Proof.
   - destruct Hm as (tr' & -> & HI' & _). cbn [negb gerr_eqb]. exists tr'. split; [reflexivity|exact (proj1 HI')].
   - destruct Hm as (tr' & -> & HI'). cbn [negb gerr_eqb]. exists tr'. split; [reflexivity|exact (proj1 HI')].
   - cbn [enum_ok]. rewrite Hm. reflexivity.
+Qed.
+
+Theorem enumerateTables_is_translation : forall (m : mem) (fail : N -> bool) (rsdt : N) (useXSDT : bool) (fuel : nat),
+  bytes_ok m -> rsdt < two64 -> (N.to_nat two32 <= fuel)%nat ->
+  enum_ok (go_acpi_acpiDriver_enumerateTables fuel (W []) rsdt useXSDT (ld_of m) (o_idmap fail))
+          (enumerateTables m fail rsdt useXSDT).
+Proof.
+  intros m fail rsdt useXSDT fuel Hok Hr Hf.
+  apply enumerateTables_is_translation_from; try assumption. split; reflexivity.
+Qed.
+
+(** ---- probeForACPI ---- *)
+(** the driver value [&acpiDriver{rsdtAddr, useXSDT}] / nil is (true, rsdtAddr, useXSDT) / (false, 0, false) *)
+Definition probe_result (tr0 : list gcall) (low : N) (r : probe_res * N * N) : gres (go_acpi_world * (bool * N * bool)) :=
+  let '(pr, nmap, nunmap) := r in
+  let tr := evs ev_unmapfn (page_of low) 0 (N.to_nat nunmap) ++ evs ev_mapfn (page_of low) 0 (N.to_nat nmap) ++ tr0 in
+  match pr with
+  | PFound root x => GOk (W tr, (true, root, x))
+  | PMissing | PMapErr => GOk (W tr, (false, 0, false))
+  | PStray _ => GPanic
+  | PFuel => GFuel
+  end.
+
+Theorem probe_is_translation : forall (m : mem) (low hi align : N) (pfail : option N) (tr0 : list gcall) (fuel : nat),
+  bytes_ok m -> low < two64 -> 0 < align -> hi + align <= two64 ->
+  (N.to_nat (locate_fuel low hi align) < fuel)%nat ->
+  go_acpi_probeForACPI fuel (W tr0) (ld_of m) align hi low (o_map pfail (List.length tr0)) =
+  probe_result tr0 low (locateRSDT m low hi align pfail).
+Proof.
+  intros m low hi align pfail tr0 fuel Hok Hlow Hal Hhi Hf. unfold go_acpi_probeForACPI.
+  rewrite (locateRSDT_is_translation m low hi align pfail tr0 fuel Hok Hlow Hal Hhi Hf).
+  unfold locate_result, probe_result.
+  destruct (locateRSDT m low hi align pfail) as [[pr nmap] nunmap]. destruct pr; reflexivity.
+Qed.
+
+(** ---- DriverInit ---- *)
+Definition ev_print : gcall := GCall "printTableInfo" [].
+
+(** printTableInfo is a seam: the translation records the call; what it prints (and whether reading the registered headers
+    strays, the model's [info_lines]) lies behind it *)
+Definition init_ok (res : gres Eres) (r : state * init_res * list event) : Prop :=
+  match r with
+  | (s, IOk, _) => exists tr, res = GOk (W (ev_print :: tr), None) /\ abs tr = s
+  | (s, IStray _, _) => res = GPanic \/ exists tr, res = GOk (W (ev_print :: tr), None) /\ abs tr = s
+  | (s, r, _) => exists tr, res = GOk (W tr, err_of r) /\ abs tr = s
+  end.
+
+Theorem driverInit_is_translation_from : forall (m : mem) (fail : N -> bool) (rsdt : N) (useXSDT : bool) (fuel : nat) (tr0 : list gcall),
+  bytes_ok m -> rsdt < two64 -> (N.to_nat two32 <= fuel)%nat -> Inv tr0 state0 ->
+  init_ok (go_acpi_acpiDriver_DriverInit fuel (W tr0) rsdt useXSDT (ld_of m) (o_idmap fail))
+          (driverInit m fail rsdt useXSDT).
+Proof.
+  intros m fail rsdt useXSDT fuel tr0 Hok Hr Hf HI0. unfold go_acpi_acpiDriver_DriverInit, driverInit.
+  pose proof (enumerateTables_is_translation_from m fail rsdt useXSDT fuel tr0 Hok Hr Hf HI0) as He.
+  destruct (enumerateTables m fail rsdt useXSDT) as [s [| | |a]]; cbn [enum_ok err_of] in He.
+  - destruct He as (tr & -> & Ha). cbn [negb gerr_eqb].
+    destruct (info_lines m (canon (st_tmap s))) as [es|a]; cbn [init_ok].
+    + exists tr. split; [reflexivity|exact Ha].
+    + right. exists tr. split; [reflexivity|exact Ha].
+  - destruct He as (tr & -> & Ha). cbn. exists tr. split; [reflexivity|exact Ha].
+  - destruct He as (tr & -> & Ha). cbn. exists tr. split; [reflexivity|exact Ha].
+  - cbn [init_ok]. left. rewrite He. reflexivity.
+Qed.
+
+Theorem driverInit_is_translation : forall (m : mem) (fail : N -> bool) (rsdt : N) (useXSDT : bool) (fuel : nat),
+  bytes_ok m -> rsdt < two64 -> (N.to_nat two32 <= fuel)%nat ->
+  init_ok (go_acpi_acpiDriver_DriverInit fuel (W []) rsdt useXSDT (ld_of m) (o_idmap fail))
+          (driverInit m fail rsdt useXSDT).
+Proof.
+  intros m fail rsdt useXSDT fuel Hok Hr Hf.
+  apply driverInit_is_translation_from; try assumption. split; reflexivity.
+Qed.
+
+(** ---- probe, then DriverInit on the driver it returns (what device detection does) ---- *)
+Definition probe_then_init (fuel : nat) (tr0 : list gcall) (ld : N -> N -> option N) (align hi low : N)
+  (o_mapFn : list gcall -> option string) (o_idFn : list gcall -> N * option string)
+  : gres (go_acpi_world * (bool * option string)) :=
+  match go_acpi_probeForACPI fuel (W tr0) ld align hi low o_mapFn with
+  | GPanic => GPanic | GFuel => GFuel
+  | GOk (w, (false, _, _)) => GOk (w, (false, None))               (* no driver: nothing to initialise *)
+  | GOk (w, (true, rsdtAddr, useXSDT)) =>
+      match go_acpi_acpiDriver_DriverInit fuel w rsdtAddr useXSDT ld o_idFn with
+      | GPanic => GPanic | GFuel => GFuel
+      | GOk (w', e) => GOk (w', (true, e))
+      end
+  end.
+
+Lemma check_slot_accept_lt m cur p x : bytes_ok m -> check_slot m cur = SAccept p x -> p < two64.
+Proof.
+  intros Hok. unfold check_slot.
+  destruct (sig_match m (w64 (cur + acpi_off_RSDP_Signature)) acpi_rsdpSignature) as [[|]|a]; try discriminate.
+  destruct (rd8 m (w64 (cur + acpi_off_RSDP_Revision))) as [rev|a]; try discriminate.
+  destruct (rev =? acpi_acpiRev1).
+  - destruct (validTable m cur acpi_sizeof_RSDPDescriptor) as [[|]|a]; try discriminate.
+    destruct (rdle m (w64 (cur + acpi_off_RSDP_RSDTAddr)) (N.to_nat acpi_sizeof_RSDP_RSDTAddr)) as [v|a] eqn:Hv; try discriminate.
+    intros H. inversion H; subst. eapply rdle_lt64; [exact Hok| |exact Hv]. vm_compute. lia.
+  - destruct (validTable m cur acpi_extRSDPLength) as [[|]|a]; try discriminate.
+    destruct (rdle m (w64 (cur + acpi_off_ExtRSDP_XSDTAddr)) (N.to_nat acpi_sizeof_ExtRSDP_XSDTAddr)) as [v|a] eqn:Hv; try discriminate.
+    intros H. inversion H; subst. eapply rdle_lt64; [exact Hok| |exact Hv]. vm_compute. lia.
+Qed.
+
+Lemma scan_rel_found_lt m hi align : bytes_ok m -> forall cur r, scan_rel m hi align cur r ->
+  forall p x, r = PFound p x -> p < two64.
+Proof.
+  intros Hok cur r H. induction H; intros p' x' E; try discriminate.
+  - inversion E; subst. eapply check_slot_accept_lt; eassumption.
+  - eapply IHscan_rel. exact E.
+Qed.
+
+Lemma locate_found_lt m low hi align pfail root x nm nu : bytes_ok m -> 0 < align -> hi + align <= two64 ->
+  locateRSDT m low hi align pfail = (PFound root x, nm, nu) -> root < two64.
+Proof.
+  intros Hok Hal Hhi H. unfold locateRSDT in H.
+  assert (Hs : scan m low hi align = PFound root x).
+  { destruct pfail as [k|]; [destruct (k <? _)|]; inversion H; reflexivity. }
+  eapply scan_rel_found_lt; [exact Hok|apply (scan_is_rel m low hi align Hal Hhi)|exact Hs].
+Qed.
+
+(** calls that are neither identityMapFn nor one of the driver's own events leave the model state alone *)
+Definition other_call (c : gcall) : Prop := (forall s, abs_step c s = s) /\ is_idmap c = false.
+
+Lemma Inv_app_other l tr s : Forall other_call l -> Inv tr s -> Inv (l ++ tr) s.
+Proof.
+  induction 1 as [|c l [Hc Hi] _ IH]; intros HI; [exact HI|].
+  specialize (IH HI). destruct IH as [Ha Hn]. cbn [app]. split.
+  - rewrite abs_cons, Ha. apply Hc.
+  - destruct c as [n a]. unfold n_idmap in *. cbn [filter]. cbn [is_idmap] in Hi. change (is_idmap (GCall n a)) with (String.eqb n "identityMapFn"). rewrite Hi. exact Hn.
+Qed.
+
+Lemma evs_other mk first i n : (forall p, other_call (mk p)) -> Forall other_call (evs mk first i n).
+Proof.
+  intros H. unfold evs. apply Forall_rev. rewrite Forall_forall. intros c Hin.
+  apply in_map_iff in Hin. destruct Hin as (j & <- & _). apply H.
+Qed.
+
+Definition pti_ok (res : gres (go_acpi_world * (bool * option string))) (m : mem) (fail : N -> bool)
+  (r : probe_res * N * N) : Prop :=
+  match r with
+  | (PFound root x, _, _) =>
+      match driverInit m fail root x with
+      | (s, IOk, _) => exists tr, res = GOk (W (ev_print :: tr), (true, None)) /\ abs tr = s
+      | (s, IStray _, _) => res = GPanic \/ exists tr, res = GOk (W (ev_print :: tr), (true, None)) /\ abs tr = s
+      | (s, r, _) => exists tr, res = GOk (W tr, (true, err_of r)) /\ abs tr = s
+      end
+  | (PMissing, _, _) | (PMapErr, _, _) => exists tr, res = GOk (W tr, (false, None)) /\ abs tr = state0
+  | (PStray _, _, _) => res = GPanic
+  | (PFuel, _, _) => False
+  end.
+
+Theorem probe_then_init_is_translation :
+  forall (m : mem) (low hi align : N) (pfail : option N) (fail : N -> bool) (fuel : nat),
+  bytes_ok m -> low < two64 -> 0 < align -> hi + align <= two64 ->
+  (N.to_nat (locate_fuel low hi align) < fuel)%nat -> (N.to_nat two32 <= fuel)%nat ->
+  pti_ok (probe_then_init fuel [] (ld_of m) align hi low (o_map pfail 0) (o_idmap fail)) m fail
+         (locateRSDT m low hi align pfail).
+Proof.
+  intros m low hi align pfail fail fuel Hok Hlow Hal Hhi Hf1 Hf2. unfold probe_then_init.
+  change (o_map pfail 0) with (o_map pfail (List.length (@nil gcall))).
+  rewrite (probe_is_translation m low hi align pfail [] fuel Hok Hlow Hal Hhi Hf1).
+  destruct (locateRSDT m low hi align pfail) as [[pr nmap] nunmap] eqn:Hl. unfold probe_result.
+  set (tr := evs ev_unmapfn (page_of low) 0 (N.to_nat nunmap) ++ evs ev_mapfn (page_of low) 0 (N.to_nat nmap) ++ []).
+  assert (HI : Inv tr state0).
+  { unfold tr. apply Inv_app_other; [apply evs_other; intros p; split; [intros s|]; reflexivity|].
+    apply Inv_app_other; [apply evs_other; intros p; split; [intros s|]; reflexivity|]. split; reflexivity. }
+  destruct pr as [root x| | |a|]; cbn [pti_ok].
+  - assert (Hroot : root < two64) by (eapply locate_found_lt; eassumption).
+    pose proof (driverInit_is_translation_from m fail root x fuel tr Hok Hroot Hf2 HI) as Hd.
+    destruct (driverInit m fail root x) as [[s r] info]. destruct r as [| | |a]; cbn [init_ok] in Hd.
+    + destruct Hd as (tr' & -> & Ha). exists tr'. split; [reflexivity|exact Ha].
+    + destruct Hd as (tr' & -> & Ha). exists tr'. split; [reflexivity|exact Ha].
+    + destruct Hd as (tr' & -> & Ha). exists tr'. split; [reflexivity|exact Ha].
+    + destruct Hd as [->|(tr' & -> & Ha)]; [left; reflexivity|right; exists tr'; split; [reflexivity|exact Ha]].
+  - exists tr. split; [reflexivity|exact (proj1 HI)].
+  - exists tr. split; [reflexivity|exact (proj1 HI)].
+  - reflexivity.
+  - (* PFuel is impossible under the hypotheses *)
+    pose proof (scan_is_translation m [] low hi align fuel Hok Hlow Hal Hhi) as Hs.
+    unfold locateRSDT in Hl.
+    assert (Hsc : scan m low hi align = PFuel) by (destruct pfail as [k|]; [destruct (k <? _)|]; inversion Hl; reflexivity).
+    unfold locate_fuel in Hf1. rewrite Hsc in Hs. apply Hs.
+    + revert Hf1. generalize (npages_of low hi) ((hi - low) / align) slot_fuel. intros; lia.
+    + revert Hf1. generalize (npages_of low hi) ((hi - low) / align) slot_fuel. intros; lia.
 Qed.
